@@ -180,4 +180,148 @@ impl W {
     }
 }
 
+impl W {
+    /// Projection of the note commitment trees (C06): per pool the checkpoint heights the wallet
+    /// retains, and for each the verdict of comparing the root the wallet computes there with the
+    /// true root of the harness chain ("ok", "wrong", "none" = not computable, "err", "nochain" =
+    /// no block of the current chain at that height); for every mined, positioned note, the
+    /// verdict of the Merkle path the wallet produces at up to three retained checkpoints at or
+    /// above its height.
+    pub fn project_trees(&mut self, chain: &Chain) -> Value {
+        use incrementalmerkletree::Position;
+        use shardtree::error::ShardTreeError;
+        use zcash_client_backend::data_api::WalletCommitmentTrees;
+        type E = ShardTreeError<zcash_client_sqlite::wallet::commitment_tree::Error>;
+        let base = self.base;
+        let mut out = serde_json::Map::new();
+        for pool in [Pool::Sapling, Pool::Orchard, Pool::Ironwood] {
+            let p = pool.table();
+            let (cks, retained, notes): (Vec<u32>, Vec<u32>, Vec<(i64, u64, Option<u32>, [u8; 32])>) = {
+                let conn = self.st.wallet().conn();
+                let cks = conn
+                    .prepare(&format!("SELECT checkpoint_id FROM {p}_tree_checkpoints ORDER BY checkpoint_id"))
+                    .unwrap()
+                    .query_map([], |r| r.get::<_, u32>(0))
+                    .unwrap()
+                    .map(|r| r.unwrap())
+                    .collect();
+                let retained = conn
+                    .prepare(&format!("SELECT checkpoint_id FROM {p}_tree_retained_checkpoints ORDER BY checkpoint_id"))
+                    .unwrap()
+                    .query_map([], |r| r.get::<_, u32>(0))
+                    .unwrap()
+                    .map(|r| r.unwrap())
+                    .collect();
+                let idx = if pool == Pool::Sapling { "output_index" } else { "action_index" };
+                let rows: Vec<(Vec<u8>, u32, Option<u64>, Option<u32>)> = conn
+                    .prepare(&format!(
+                        "SELECT t.txid, rn.{idx}, rn.commitment_tree_position, t.mined_height
+                         FROM {p}_received_notes rn JOIN transactions t ON t.id_tx = rn.transaction_id
+                         WHERE t.mined_height IS NOT NULL AND rn.commitment_tree_position IS NOT NULL"
+                    ))
+                    .unwrap()
+                    .query_map([], |r| Ok((r.get(0)?, r.get(1)?, r.get(2)?, r.get(3)?)))
+                    .unwrap()
+                    .map(|r| r.unwrap())
+                    .collect();
+                let notes = rows
+                    .into_iter()
+                    .filter_map(|(txid, index, pos, mined)| {
+                        let txid: [u8; 32] = txid.try_into().unwrap();
+                        let uid = chain.tx_by_id.get(&txid)?;
+                        let (n, ni) = chain.notes.iter().find(|(_, ni)| ni.tx == *uid && ni.pool == pool && ni.index == index)?;
+                        Some((*n as i64, pos.unwrap(), mined, ni.cm))
+                    })
+                    .collect();
+                (cks, retained, notes)
+            };
+            let mut roots = vec![];
+            for h in &cks {
+                let truth = chain.root_at(pool, *h);
+                let bh = BlockHeight::from(*h);
+                let got: Result<Result<Option<[u8; 32]>, String>, String> = {
+                    let st = &mut self.st;
+                    guarded(move || match pool {
+                        Pool::Sapling => st.wallet_mut().with_sapling_tree_mut::<_, _, E>(|t| t.root_at_checkpoint_id(&bh)).map(|r| r.map(|n| n.to_bytes())).map_err(|e| format!("{e:?}")),
+                        Pool::Orchard => st.wallet_mut().with_orchard_tree_mut::<_, _, E>(|t| t.root_at_checkpoint_id(&bh)).map(|r| r.map(|n| n.to_bytes())).map_err(|e| format!("{e:?}")),
+                        Pool::Ironwood => st.wallet_mut().with_ironwood_tree_mut::<_, _, E>(|t| t.root_at_checkpoint_id(&bh)).map(|r| r.flatten().map(|n| n.to_bytes())).map_err(|e| format!("{e:?}")),
+                    })
+                };
+                let verdict = match (got, truth) {
+                    (Err(_), _) => "panic",
+                    (Ok(Err(_)), _) => "err",
+                    (Ok(Ok(None)), _) => "none",
+                    (Ok(Ok(Some(_))), None) => "nochain",
+                    (Ok(Ok(Some(r))), Some(t)) => if r == t { "ok" } else { "wrong" },
+                };
+                roots.push(json!([*h as i64 - base as i64, verdict]));
+            }
+            // witnesses: each mined, positioned note at the lowest, a middle and the highest checkpoint >= its height
+            let mut wit = vec![];
+            for (n, pos, mined, cm) in &notes {
+                let cands: Vec<u32> = cks.iter().copied().filter(|c| Some(*c) >= *mined).collect();
+                let mut picks = vec![];
+                if let Some(f) = cands.first() { picks.push(*f) }
+                if cands.len() > 2 { picks.push(cands[cands.len() / 2]) }
+                if cands.len() > 1 { picks.push(*cands.last().unwrap()) }
+                // the position the wallet stored must be the note's true position on the chain
+                let true_pos = chain.notes[&(*n as u32)].pos;
+                for c in picks {
+                    let bh = BlockHeight::from(c);
+                    let position = Position::from(*pos);
+                    let truth = chain.root_at(pool, c);
+                    let cm = *cm;
+                    let got: Result<Result<Option<[u8; 32]>, String>, String> = {
+                        let st = &mut self.st;
+                        guarded(move || match pool {
+                            Pool::Sapling => st
+                                .wallet_mut()
+                                .with_sapling_tree_mut::<_, _, E>(|t| t.witness_at_checkpoint_id(position, &bh))
+                                .map(|w| w.map(|path| {
+                                    let leaf = sapling::Node::from_cmu(&sapling::note::ExtractedNoteCommitment::from_bytes(&cm).unwrap());
+                                    path.root(leaf).to_bytes()
+                                }))
+                                .map_err(|e| format!("{e:?}")),
+                            Pool::Orchard => st
+                                .wallet_mut()
+                                .with_orchard_tree_mut::<_, _, E>(|t| t.witness_at_checkpoint_id(position, &bh))
+                                .map(|w| w.map(|path| {
+                                    let leaf = orchard::tree::MerkleHashOrchard::from_cmx(&orchard::note::ExtractedNoteCommitment::from_bytes(&cm).unwrap());
+                                    path.root(leaf).to_bytes()
+                                }))
+                                .map_err(|e| format!("{e:?}")),
+                            Pool::Ironwood => st
+                                .wallet_mut()
+                                .with_ironwood_tree_mut::<_, _, E>(|t| t.witness_at_checkpoint_id(position, &bh))
+                                .map(|w| w.flatten().map(|path| {
+                                    let leaf = orchard::tree::MerkleHashOrchard::from_cmx(&orchard::note::ExtractedNoteCommitment::from_bytes(&cm).unwrap());
+                                    path.root(leaf).to_bytes()
+                                }))
+                                .map_err(|e| format!("{e:?}")),
+                        })
+                    };
+                    let verdict = match (got, truth) {
+                        (Err(_), _) => "panic",
+                        (Ok(Err(_)), _) => "err",
+                        (Ok(Ok(None)), _) => "none",
+                        (Ok(Ok(Some(_))), None) => "nochain",
+                        (Ok(Ok(Some(r))), Some(t)) => if r == t { "ok" } else { "wrong" },
+                    };
+                    wit.push(json!([n, c as i64 - base as i64, verdict, if *pos == true_pos { "pos-ok" } else { "pos-wrong" }]));
+                }
+            }
+            out.insert(
+                pool.code().to_string(),
+                json!({
+                    "ck": cks.iter().map(|h| *h as i64 - base as i64).collect::<Vec<_>>(),
+                    "ret": retained.iter().map(|h| *h as i64 - base as i64).collect::<Vec<_>>(),
+                    "roots": roots,
+                    "wit": wit,
+                }),
+            );
+        }
+        Value::Object(out)
+    }
+}
+
 pub fn _unused(_: &mut ChaChaRng) {}
